@@ -3,5 +3,7 @@
 tier=${1:-quick}; shift
 props=${@:-C14 C16 C09 C12 C15 C06 C10 C02 C07 C04 C08 C05 C01 C03 C11 C13 C17 C18}
 for p in $props; do
-  /usr/bin/time -f "%e s" /verif/bin/vk check $p --tier $tier ${VK_EXTRA:-} 2>&1 | grep -E "^vk:|VIOLATION|KNOWN-FINDING|INCONCLUSIVE| s$"
+  s=$(date +%s)
+  /verif/bin/vk check $p --tier $tier ${VK_EXTRA:-} 2>&1 | grep --line-buffered -E "^vk:|VIOLATION|KNOWN-FINDING|INCONCLUSIVE"
+  echo "== $p took $(( $(date +%s) - s )) s"
 done
